@@ -48,7 +48,8 @@ var unsupported = map[string]bool{
 
 var venvRedirect = map[string]string{
 	"net.Interfaces": "Interfaces", "net.InterfaceByName": "InterfaceByName", "net.InterfaceByIndex": "InterfaceByIndex",
-	"github.com/vishvananda/netlink.RouteList": "RouteList", "go.uber.org/ratelimit.New": "NewRateLimit",
+	"github.com/vishvananda/netlink.RouteList": "RouteList", "github.com/vishvananda/netlink.RouteListFiltered": "RouteListFiltered",
+	"go.uber.org/ratelimit.New": "NewRateLimit",
 }
 var venvMethodRedirect = map[string]string{"(*net.Interface).Addrs": "Addrs"}
 
@@ -177,6 +178,13 @@ func (r *rw) premark(f *ast.File) {
 				full := fn.FullName()
 				if unsupported[full] {
 					r.fail(x, "call of %s has no model", full)
+				}
+				// the routing tables, links and addresses of the host are part of the virtual world: a netlink
+				// query without a stand-in would silently answer from the machine the check runs on
+				if fn.Pkg() != nil && fn.Pkg().Path() == "github.com/vishvananda/netlink" && fn.Type().(*types.Signature).Recv() == nil && !inVenv && !strings.HasPrefix(filepath.Base(r.fset.Position(f.Pos()).Filename), "zz_verif_") {
+					if _, ok := venvRedirect[full]; !ok {
+						r.fail(x, "call of %s has no model in the virtual host", full)
+					}
 				}
 				if _, isSel := x.Fun.(*ast.SelectorExpr); isSel {
 					if full == "(context.Context).Done" {
